@@ -26,6 +26,7 @@ over the tables regenerated from /repo on every run, by evaluation in the kernel
 -/
 import Hdl21Model.Pdk
 import Hdl21Model.Generated.PdkTables
+import Hdl21Model.Memo
 namespace Hdl21.Props.C15
 open Hdl21.Pdk
 
@@ -454,5 +455,58 @@ def exTop : Mod := ⟨"T", [⟨"c1", .module 0, []⟩, ⟨"c2", .module 0, []⟩
 example : (match compile exDm (fun _ => true) [exChild, exTop] with
     | .ok d => d == [⟨"C", [⟨"m", .ext "nfet" 1, [("d", "a")]⟩, ⟨"r", .prim "R" 2, [("p", "a")]⟩]⟩, exTop]
     | .error _ => false) = true := by decide +kernel
+
+
+/-! ## the per-parameter tables of device calls (`CACHE.mos_modcalls`, …): what a request compiles to does not depend on earlier requests -/
+section Tables
+open Hdl21.Memo
+variable {K V E : Type} [DecidableEq K]
+
+theorem coherent_nil (f : K → Except E V) : Coherent f ([] : List (K × V)) := by
+  intro k v h; cases h
+
+/-- one request against a coherent table: the answer is the fresh answer, and the table stays coherent -/
+theorem request_is_fresh_answer (f : K → Except E V) (c : List (K × V)) (k : K) (hc : Coherent f c) :
+    (request f c k).2 = f k ∧ Coherent f (request f c k).1 := by
+  unfold request
+  cases hl : lookup k c with
+  | some v => exact ⟨(hc k v hl).symm, hc⟩
+  | none =>
+    cases hf : f k with
+    | error e => exact ⟨rfl, hc⟩
+    | ok v =>
+      refine ⟨rfl, ?_⟩
+      intro k' v' h'
+      unfold lookup at h'
+      by_cases hk : k = k'
+      · subst hk; simp at h'; rw [← h']; exact hf
+      · simp [hk] at h'; exact hc k' v' h'
+
+/-- **Selection does not depend on history.** Whatever the process compiled before — any requests, in any order, answered or
+    refused — every request is answered as a fresh process answers it: by `f`, the selection over the device tables. (A table in
+    which an answer is filed under another request's parameters is not coherent; seed C15-r8-2 did that.) -/
+theorem device_calls_are_history_free (f : K → Except E V) : ∀ (ks : List K) (c : List (K × V)), Coherent f c →
+    (serve f c ks).2 = ks.map f ∧ Coherent f (serve f c ks).1
+  | [], c, hc => ⟨rfl, hc⟩
+  | k :: ks, c, hc => by
+    obtain ⟨h1, h2⟩ := request_is_fresh_answer f c k hc
+    obtain ⟨h3, h4⟩ := device_calls_are_history_free f ks (request f c k).1 h2
+    unfold serve
+    exact ⟨by simp only [List.map_cons]; rw [h1, h3], h4⟩
+
+/-- … in particular from the empty table a process starts with; and a refused request leaves no entry, so asking again asks `f` again -/
+theorem device_calls_from_a_fresh_process (f : K → Except E V) (before : List K) (k : K) :
+    (request f (serve f [] before).1 k).2 = f k :=
+  (request_is_fresh_answer f _ k (device_calls_are_history_free f before [] (coherent_nil f)).2).1
+
+theorem refused_request_is_not_filed (f : K → Except E V) (c : List (K × V)) (k : K) (e : E)
+    (hl : lookup k c = none) (hf : f k = .error e) : (request f c k).1 = c := by
+  unfold request; rw [hl, hf]
+
+/-- non-vacuity, and the converse: one entry filed under a neighbour's key makes a later request answer wrongly -/
+example : (serve (fun (k : Nat) => if k = 0 then (.error "no device" : Except String Nat) else .ok (k * 10)) [] [3, 0, 3, 5, 0]).2.map Except.toOption =
+    [some 30, none, some 30, some 50, none] := by decide
+example : (request (fun (k : Nat) => (.ok (k * 10) : Except String Nat)) [(5, 30)] 5).2.toOption = some 30 := by decide
+end Tables
 
 end Hdl21.Props.C15
